@@ -221,16 +221,18 @@ class SimilarPoint:
 def specs(tier):
     Mo = "checks.c12"
     out = []
-    pairs = [("square", "unit"), ("tri", "unit")] if tier == "quick" else [("square", "unit"), ("tri", "unit"), ("penta", "quad"), ("ell", "tri"), ("quad", "square")]
+    pairs = [("square", "unit"), ("tri", "unit"), ("penta", "quad"), ("ell", "tri"), ("quad", "square")]
+    if tier != "quick":
+        pairs += [("you", "bar"), ("youb", "bar2"), ("rhombus", "square"), ("hollow", "unit"), ("big", "two"), ("notchtri", "quad")]
     for A, B in pairs:
-        for op in ["|", "&", "-"] + (["^"] if tier != "quick" else []):
+        for op in ["|", "&", "-", "^"]:
             for mode in ("scale", "translate"):
                 out.append(dict(module=Mo, scenario="Similar", params=dict(A=A, B=B, op=op, mode=mode), time_budget=120 if tier == "quick" else 1500))
-    for rot in ["345"] + (["51213", "neg345"] if tier != "quick" else []):
+    for rot in ["345", "51213", "neg345"]:
         for op in ("|", "-"):
             out.append(dict(module=Mo, scenario="Similar", params=dict(A="square", B="unit", op=op, mode="scale", rot=rot), time_budget=120 if tier == "quick" else 1500))
             out.append(dict(module=Mo, scenario="Similar", params=dict(A="tri", B="unit", op=op, mode="translate", rot=rot), time_budget=120 if tier == "quick" else 1500))
-    for s in ["penta", "hollow"] + (["two", "inv:ell"] if tier != "quick" else []):
+    for s in ["penta", "hollow", "two", "inv:ell"] + (["framedot", "inv:hollow", "youb", "opring", "cw:quad"] if tier != "quick" else []):
         for mode in ("scale", "translate"):
             out.append(dict(module=Mo, scenario="SimilarPoint", params=dict(shape=s, mode=mode), time_budget=120 if tier == "quick" else 1500))
     return out
